@@ -138,7 +138,7 @@ end
 /-- What a register holds. -/
 inductive RVal where
   | val (v : Val)
-  | fn (id : Id) (ret : STy) (nparams : Nat)
+  | fn (id : Id) (ret : STy) (pnames : List String)     -- a NadaFunction: id, return class, parameter names in order
   | party (name : String)
   | input (id : Id) (name party doc : String)     -- a raw `Input(...)` object
   | dead
